@@ -444,6 +444,19 @@ func (p *c01) RunCase(ctx *runner.Ctx) runner.CaseResult {
 			}
 		default:
 			op = c01Op(spec, t, k, i)
+			if op.Kind == adapt.OpGet && r.Intn(2) == 0 {
+				// a read that names the attributes it wants (names that begin alike - n / near, l / lg, a / #a - are
+				// different attributes; a projection never makes a stored item unreadable)
+				op.Proj = mon.Pick(r, []string{"n, near, l, lg, a", "a, b, c, d", "#a, #ab, l[0], l[1]", "near, n", "lg[0], lg[1], lg[10], l", "cfg, #ab"})
+				for ph, name := range map[string]string{"#a": "a", "#ab": "b"} {
+					if strings.Contains(op.Proj, ph+",") || strings.HasSuffix(op.Proj, ph) {
+						if op.Names == nil {
+							op.Names = map[string]string{}
+						}
+						op.Names[ph] = name
+					}
+				}
+			}
 		}
 		if r.Intn(6) == 0 {
 			// a write that must be rejected
